@@ -598,6 +598,11 @@ def gen_cases(ctx):
                                         c.update(op="split", form=form, m=m, n=L)
                                         cases.append(c)
     ctx.exhaustive = False   # quick samples part of the scope; thorough adds a sampled part
+    ctx.notes = (["thorough: the scope of the property's quantifier (flows 0..8, bufsize 1..5, every request schedule, "
+                  "every flag combination, Split bufsizes) is enumerated completely; only the schedules for flows "
+                  "9..40 are sampled"] if thorough else
+                 ["quick: every request schedule of flows 0..7 (1-result element) enumerated; flows of length 8 and "
+                  "the 2-result / state-changing elements sampled (9000 cases) — the thorough tier enumerates them"])
     if thorough:
         for _ in range(60000):
             kind = rng.choice(KINDS_FILL)
